@@ -52,10 +52,18 @@ LEVEL_TEXT = ('Kernel-checked for all inputs: soundness of the result checker w.
               'correctness of the model (no exception and Spec) on (i) the append/empty-table path, (ii) EVERY input '
               'that takes the no-renumbering path, derived from the implementation\'s own is_valid_range test via '
               'monotonicity of IEEE rounding, (iii) the simple renumber-all path (requests before an invalid first '
-              'row); refutation of the unrestricted total statement by three concrete inputs; regression examples for the two '
+              'row), (iv) EVERY call whose requests fall into one gap before an existing row, valid positions, fewer than '
+              '2^20 rows -- including the partial renumbering path (_find_sparse_enough_range / _adjust_range), assembled '
+              'from: spread keys are strictly increasing at every level (three/four roundings), the density test implies '
+              'the needed sparsity (table of the float powers 1.14^i, 1.3^i), a wide gap is never crowded, the search finds '
+              'a range by level 55, _adjust_range / _adj_get_key / the final assert followed step by step; partial '
+              'correctness for one gap anywhere; exactness of _adj_bisect_key_left under its precise side condition; '
+              'refutation of the unrestricted total statement by three concrete inputs; regression examples for the two '
               'repaired defects.')
-LEVEL_NOTE = ('The total-correctness statement for valid positions stays a Definition (C20_total_restricted_stmt, no '
-              'counterexample known on the repaired code): for the partial '
+LEVEL_NOTE = ('The total-correctness statement for valid positions and SEVERAL gaps in one call stays a Definition '
+              '(C20_total_restricted_stmt, no counterexample known on the repaired code): with several groups the later '
+              'groups see adjusted rows, and the invariant that keeps _adj_bisect_key_left exact there (a dyadic-block '
+              'argument) is not formalised; for that case on the partial '
               'renumbering path (_find_sparse_enough_range/_adjust_range: doubling ranges, thresholds 1.14^i/1.3^i) '
               'neither absence of exceptions nor Spec is proved; those inputs are covered by the per-case certificates '
               '(checker evaluated in Coq on every implementation result) and the bit-exact model correspondence.')
@@ -652,6 +660,19 @@ def correspond(ctx):
     if ctx._c20[sample[j]][3][1]:
       ctx.broken('theorem/implementation mismatch',
                  'plain_path holds but the implementation adjusted rows: %r' % (ctx._c20[sample[j]][:2],))
+  # 2c. inputs inside the hypotheses of C20_total_one_gap_partial (valid positions, all requests in one gap before an
+  #     existing row): the theorem says no exception and Spec; the implementation must agree
+  onegap = 0
+  for orig, keys, _mode, r in ctx._c20:
+    if orig and all(0 < x < 2.0 ** 1012 for x in orig) and all(a < b for a, b in zip(orig, orig[1:])) and \
+       all(k == k for k in keys) and len(orig) + len(keys) < 2 ** 20:
+      idx = set(bisect.bisect_left(orig, k) for k in keys)
+      if len(idx) == 1 and next(iter(idx)) < len(orig):
+        onegap += 1
+        if r[0] != 'ok':
+          ctx.broken('theorem/implementation mismatch',
+                     'C20_total_one_gap_partial covers %r %r but the implementation raised %r' % (orig, keys, r))
+  ctx.extra['covered_by_one_gap_total_theorem'] = '%d of %d cases' % (onegap, len(ctx._c20))
   ctx.log('coverage by the total theorems evaluated')
   # 3. primitives
   ops = op_cases(ctx)
